@@ -61,9 +61,43 @@ namespace Givaro
         Element& init (Element& x) const
         { return x = 0; }
         Element& init (Element& x, const Integer& y) const final
-        { x = y % _p; return reduce(x); }
+        {
+            // canonical remainder in [0,p) taken over Z: `y % _p` has the sign of y, which an unsigned Element loses
+            Integer t;
+            Integer::mod(t, y, Integer(_p));
+            return x = Caster<Element>(t);
+        }
         template<typename T> Element& init(Element& r, const T& a) const
+        {
+            // a machine number that a machine-integer Element need not hold (wider, signed into unsigned, floating) is
+            // reduced over Z first: Caster<Element>(a) would keep only its low bits
+            return _init(r, a, std::integral_constant<bool,
+                         std::is_integral<Element>::value && std::is_arithmetic<T>::value
+                         && !(std::is_integral<T>::value
+                              && ((std::is_signed<T>::value == std::is_signed<Element>::value && sizeof(T) <= sizeof(Element))
+                                  || (std::is_unsigned<T>::value && sizeof(T) < sizeof(Element))))>());
+        }
+    private:
+        template<typename T> Element& _init(Element& r, const T& a, std::true_type) const
+        {
+            typedef typename std::conditional<std::is_floating_point<T>::value, double,
+                    typename std::conditional<std::is_signed<T>::value, int64_t, uint64_t>::type>::type Wide_t;
+            const Wide_t w = static_cast<Wide_t>(a);
+            if (w != w || w - w != 0) return r = zero; // not a finite number
+            return init(r, Integer(w));
+        }
+        template<typename T> Element& _init(Element& r, const T& a, std::false_type) const
         { r = Caster<Element>(a); return reduce(r); }
+    public:
+
+        // -- maxCardinality: every operation is carried out in Element (Compute_t is not used), a*b + c and
+        // --   a*b + (p - c) <= p(p-1) + 1 must fit: p <= 2^floor(N/2) with N the number of value bits of Element
+        template<typename S = Storage_t, typename std::enable_if<std::is_integral<S>::value, int>::type = 0>
+        static Residu_t maxCardinality()
+        { return (Residu_t)((Residu_t)1 << ((8 * sizeof(S) - (std::is_signed<S>::value ? 1 : 0)) / 2)); }
+        template<typename S = Storage_t, typename std::enable_if<!std::is_integral<S>::value, int>::type = 0>
+        static Residu_t maxCardinality()
+        { return Parent_t::maxCardinality(); }
 
 
         Element& reduce (Element& x, const Element& y) const
